@@ -78,9 +78,9 @@ Definition operand_comments (op : operand) : list text :=
   end.
 
 (* The comments of a token list in source order: for every token its leading trivia (Token::trivia()), then its body.
-   `full = true`: every comment.  `full = false`: without the places whose trivia the formatter does not emit:
-   the `{` of a block that belongs to a directive / label / import / `.define`, the first item of a `.define` or
-   config-pair value, the `:` of a label and the Located wrapper of a specific import argument. *)
+   `full` / `wrapper` select whether the trivia of the `{` of a block that belongs to a directive / label / import /
+   `.define`, resp. of the Located wrapper of a specific import argument, is counted (both: every comment of the file;
+   the formatter emitted neither before 7635ca8 / the `{` repair). *)
 Definition lead_comments (t : token) : list text :=
   match t with
   | Expression _ => []        (* Token::trivia() of a bare expression is the trivia of its first factor: part of the body *)
@@ -88,8 +88,12 @@ Definition lead_comments (t : token) : list text :=
   end.
 
 Section Comments.
-  Variable full : bool.        (* the trivia of `{` of directive blocks, of `.define` values and of `:` is counted *)
+  Variable full : bool.        (* the trivia of the `{` of directive / label / import / `.define` blocks is counted *)
   Variable wrapper : bool.     (* the trivia of the Located wrapper of a specific import argument is counted *)
+
+  (* the value of a `.define` or of a config pair is a config block (its `{` trivia) or an expression (trivia inside) *)
+  Definition value_lead (v : token) : list text :=
+    match v with Config _ => if full then lead_comments v else [] | _ => [] end.
 
   Fixpoint body_comments (t : token) : list text :=
     match t with
@@ -97,11 +101,10 @@ Section Comments.
     | Assert tag value msg => lexpr_comments value ++ opt_comments istring_comments msg
     | Braces b | Config b => block_comments b
     | ConfigPair key eq value =>
-        lt_comments eq ++ otrivia_comments (l_trivia value) ++
-        (if full then lead_comments (l_data value) else []) ++ body_comments (l_data value)
+        lt_comments eq ++ otrivia_comments (l_trivia value) ++ value_lead (l_data value) ++ body_comments (l_data value)
     | Data values size => arg_exprs_comments values
     | Definition_ tag id value =>
-        lt_comments id ++ match value with Some v => (if full then lead_comments v else []) ++ body_comments v | None => [] end
+        lt_comments id ++ match value with Some v => value_lead v ++ body_comments v | None => [] end
     | Eof l => []
     | Error e => []
     | Expression e => expr_comments e
@@ -113,8 +116,8 @@ Section Comments.
         import_args_comments wrapper args ++ lt_comments from ++ istring_comments filename ++
         match b with Some b => inner_block_comments b | None => [] end
     | Instruction mnemonic op => opt_comments operand_comments op
-    | Label_ id colon b =>
-        (if full then lt_comments colon else []) ++ match b with Some b => inner_block_comments b | None => [] end
+    | Label_ id colon b =>   (* the `:` carries no trivia (parser: located(char(':'))) *)
+        match b with Some b => inner_block_comments b | None => [] end
     | Loop tag e b => lexpr_comments e ++ inner_block_comments b
     | MacroDefinition tag id lparen args rparen b =>
         lt_comments id ++ lt_comments lparen ++ arg_ids_comments args ++ lt_comments rparen ++ inner_block_comments b
@@ -150,9 +153,9 @@ End Comments.
 
 (* every comment of the file, in source order *)
 Definition all_comments (ts : list token) : list text := tokens_comments true true ts.
-(* the comments the formatter's token layer emits: never the trivia of a directive's `{`; the trivia in front of a
-   specific import argument iff the source emits it (Gen.FmtRules.emits_import_arg_trivia) *)
-Definition emitted_comments (ts : list token) : list text := tokens_comments false emits_import_arg_trivia ts.
+(* the comments the formatter's token layer emits: the trivia of a directive's `{` / in front of a specific import
+   argument iff the source emits it (Gen.FmtRules.emits_lbrace_trivia, emits_import_arg_trivia) *)
+Definition emitted_comments (ts : list token) : list text := tokens_comments emits_lbrace_trivia emits_import_arg_trivia ts.
 
 Fixpoint texts_eqb (a b : list text) : bool :=
   match a, b with
@@ -194,9 +197,21 @@ End AnyToken.
 (* ---------------------------------------------------------------- parser invariants assumed by the theorems *)
 Definition is_expression_token (t : token) : bool := match t with Expression _ => true | _ => false end.
 Definition else_without_tag (t : token) : bool := match t with If _ _ _ None (Some _) => true | _ => false end.
-(* a bare Expression token only ever is the value of a config pair, and an `else` block comes with its `else` tag *)
+(* shapes the parser never builds: an `else` block without its tag, a `:` with trivia, a `.define` value that is not a
+   config block, a config-pair value that is neither a config block nor an expression *)
+Definition bad_shape (t : token) : bool :=
+  match t with
+  | If _ _ _ None (Some _) => true
+  | Label_ _ colon _ => match l_trivia colon with Some _ => true | None => false end
+  | Definition_ _ _ (Some v) => match v with Config _ => false | _ => true end
+  | ConfigPair _ _ v => match l_data v with Config _ | Expression _ => false | _ => true end
+  | _ => false
+  end.
+(* a bare Expression or Config token only ever is the value of a `.define` / config pair, never an element of a token
+   list (format_tokens would emit its leading trivia twice); no bad shapes *)
+Definition is_value_token (t : token) : bool := match t with Expression _ | Config _ => true | _ => false end.
 Definition wf_tokens (ts : list token) : bool :=
-  negb (any_tokens (existsb is_expression_token) else_without_tag ts).
+  negb (any_tokens (existsb is_value_token) bad_shape ts).
 
 (* ---------------------------------------------------------------- several statements on one source line *)
 Definition has_newline (ot : option (list trivia)) : bool :=
@@ -291,6 +306,3 @@ Definition stable_chunk (c : chunk) : bool :=
   | Some _ => negb (contains_nl (c_str c))
   end.
 Definition stable_chunks (cs : list chunk) : bool := forallb stable_chunk cs.
-(* the last chunk carries a line break (format_tokens ends every non-empty file with the newline in front of Eof) *)
-Definition ends_with_nl (cs : list chunk) : bool :=
-  match rev cs with [] => true | f :: _ => contains_nl (c_str f) end.
